@@ -104,6 +104,11 @@ def independence_cases():
                                ("[3, 1, 2]", "sorted(s)", "s[0] = 9"), ("[3, 1, 2]", "sublist(s, 0)", "delete_at(s, 0)"), ("[3, 1, 2]", "s + []", "append(s, 0)"),
                                ("<<<'b' => 1, 'a' => 2>>>", "[...s]", "s['c'] = 3"), ("<<<'b' => 1, 'a' => 2>>>", "set(s)", "remove(s, 'a')")):
         cases.append((f"def s = {make}; def r = {conv}; def r0 = string(r); {change}; string(r) == r0", ('text', "TRUE")))
+    # mutators change exactly the container they are given: an object's prototype (and its sibling instances) is another container
+    cases.append(("def p = <*inh = 1, m = fn(self) self->own*>; def o = <*_proto_ = p, own = 2*>; def sib = <*_proto_ = p, own = 3*>; "
+                  "do remove(o, 'inh') catch all 0 end; do remove(o, 'own') catch all 0 end; o->inh = 5; o->extra = 6; "
+                  "[p->inh, sib->inh, sib->m(), string(p) == string(<*inh = 1, m = p->m*>), o->inh]", ('text', "[1, 1, 3, TRUE, 5]")))
+    cases.append(("def p = <*l = [1]*>; def o = <*_proto_ = p*>; o->l = [9]; o['k'] = 1; [p->l, o->l, 'k' in p]", ('text', "[[1], [9], FALSE]")))
     # parameter defaults: every call that omits the argument gets its own value
     for dflt, grow in (("[]", "append(acc, x)"), ("<<>>", "append(acc, x)"), ("<<<>>>", "acc[x] = x"), ("[[]]", "append(acc[0], x)"), ("[1]", "append(acc, x)"),
                        ("<*n = 0*>", "acc->n = acc->n + x")):
